@@ -694,6 +694,23 @@ fn sweep_values(s: T, d: T) -> Vec<V> {
                 xs.push(-x);
             }
         }
+        // double-rounding-sensitive values: an f32 (f64) midpoint ± 1 for every bit length, i.e. the
+        // integers that `(v as f64) as f32` or any other rounding through a wider intermediate
+        // format gets wrong (lower neighbour even: midpoint + 1; lower neighbour odd: midpoint − 1)
+        for (p, lmax) in [(24u32, 64u32), (53, 64)] {
+            if !d.is_float() {
+                break;
+            }
+            for l in (p + 2)..=lmax {
+                let top: i128 = 1 << (l - 1);
+                let half: i128 = 1 << (l - p - 1); // half a unit in the last place of the target
+                let ulp: i128 = half * 2;
+                for x in [top + half + 1, top + half - 1, top + ulp + half - 1, top + ulp + half + 1, top + half, top + ulp + half] {
+                    xs.push(x);
+                    xs.push(-x);
+                }
+            }
+        }
         xs.sort();
         xs.dedup();
         for x in xs {
@@ -746,6 +763,16 @@ fn sweep_values(s: T, d: T) -> Vec<V> {
         out.push(V::F64(-f64::from_bits(1)));
     }
     if s == F64 {
+        // midpoints between adjacent f32 values ± one f64 unit in the last place: normal range,
+        // the overflow boundary (MAX + half ulp), the normal/subnormal boundary and subnormals
+        for a in [1.0f32, 1.0000001, 3.0, 16777215.0, 16777216.0, 1.0e20, f32::MAX, f32::MIN_POSITIVE, 1.0e-40, 1.0e-45, 0.0] {
+            let b = f32::from_bits(a.to_bits() + 1);
+            let mid = if b.is_finite() { (a as f64 + b as f64) / 2.0 } else { a as f64 + (a as f64 - f32::from_bits(a.to_bits() - 1) as f64) / 2.0 };
+            for x in [mid, f64::from_bits(mid.to_bits() + 1), f64::from_bits(mid.to_bits().wrapping_sub(1))] {
+                out.push(V::F64(x));
+                out.push(V::F64(-x));
+            }
+        }
         // values that round / overflow / underflow when narrowed to f32
         for (m, e) in [
             (16777217u64, 0i32),
